@@ -241,6 +241,16 @@ fn corr_folder(op: &OpKind, c: &Ctx) -> Option<VaultId> {
     match op { OpKind::CreateSecret | OpKind::UpdateSecret | OpKind::DeleteSecret | OpKind::RenameFolder => Some(c.default), OpKind::Describe => Some(c.work), _ => None }
 }
 
+/// (secret rows, event log) of one folder after a crash: `b`efore / `a`fter / `x` other, each
+fn state_code(before: &Seen, after: &Seen, seen: &Seen, folder: &VaultId) -> String {
+    let norm = |v: &FView| { let mut d: Vec<String> = v.secrets.iter().map(|x| x.1.clone()).collect(); d.sort(); (v.name.clone(), v.flags, v.desc.clone(), d) };
+    let sv = |s: &Seen| s.folders.get(folder).and_then(|x| x.0.as_ref().ok()).map(norm);
+    let lg = |s: &Seen| s.logs.get(&format!("folder:{folder}")).map(|l| l.len());
+    let v = if sv(seen) == sv(before) { "b" } else if sv(seen) == sv(after) { "a" } else { "x" };
+    let l = if lg(seen) == lg(before) { "b" } else if lg(seen) == lg(after) { "a" } else { "x" };
+    format!("{v}{l}")
+}
+
 pub struct Corr { pub ops: Vec<String>, pub imp: Vec<String> }
 
 pub fn run_case(backend: &str, seed: u64, rep: &mut Report, thorough: bool, corr: &mut Corr, only: &Option<Vec<String>>) -> anyhow::Result<()> {
@@ -309,6 +319,9 @@ pub fn run_case(backend: &str, seed: u64, rep: &mut Report, thorough: bool, corr
         if let Some(f) = &corr_of { observed.insert(describe(&folder_files(&base_tree, f), &folder_files(&after_tree, f))); }
         let points: Vec<usize> = if thorough || steps <= 40 || corr_of.is_some() { (0..steps).collect() } else { let stride = (steps + 39) / 40; (0..steps).step_by(stride).collect() };
         let mut seen_states: BTreeSet<String> = BTreeSet::new();
+        let mut db_codes: BTreeSet<String> = BTreeSet::new();
+        // the completed state and the state before the first call (a process can die before issuing anything)
+        if let (true, Some(f)) = (backend == "db", corr_folder(&op, &ctx)) { db_codes.insert(state_code(&before, &after, &after, &f)); db_codes.insert(state_code(&before, &after, &before, &f)); }
         for k in points {
             let trial = root.join("trial"); let _ = std::fs::remove_dir_all(&trial); copy_dir(&base, &trial)?;
             let r = rt();
@@ -325,7 +338,13 @@ pub fn run_case(backend: &str, seed: u64, rep: &mut Report, thorough: bool, corr
             if !seen_states.insert(state_key) { rep.count("crash-point-with-already-inspected-state"); continue; }
             let r = rt(); let seen = r.block_on(inspect(&trial, backend, account_id, &key)); r.shutdown_timeout(std::time::Duration::from_secs(10));
             rep.count(&format!("state:{opname}:{backend}:{files}"));
+            if let (true, Some(f)) = (backend == "db", corr_folder(&op, &ctx)) { db_codes.insert(state_code(&before, &after, &seen, &f)); }
             judge.judge(rep, &seen, "crash", json!({"step": k, "of": steps}), &files);
+        }
+        if backend == "db" && corr_folder(&op, &ctx).is_some() {
+            // database backend: which (rows, log) combinations the crash points left, against the model's transactions
+            corr.ops.push("crash dbstates".to_string());
+            corr.imp.push(format!("dbstates {}", db_codes.iter().cloned().collect::<Vec<_>>().join("|")));
         }
         if corr_of.is_some() {
             corr.ops.push(format!("crash states op={opname}"));
